@@ -244,7 +244,8 @@ CLAIMS = {
        "the content of merged input parameters (wiring of the merge is under C17). No Kani harness serves this property."
        "Added later: the process-wide-state enumeration of C05 (nothing outlives one evaluation's scope) with its isolation battery."
        "Added later: the per-rules-file exit-code fold (`the run reports failure iff some pair does`) and the hash-order obligations of C05 also run here; per-<testsuite> replay for junit."
-       " Added last: SARIF per-file step (one SarifResults::from((check, report.name)) handed unchanged to extend_results, no other call, no other capture) with a replay on copies of one data file in several orders.",
+       " Added last: SARIF per-file step (one SarifResults::from((check, report.name)) handed unchanged to extend_results, no other call, no other capture) with a replay on copies of one data file in several orders."
+       " Added last: every --rules file collected is evaluated - Validate::execute only creates and pushes onto its lists of paths (site enumeration), get_rule_info's fold keeps every file it read (no comparison with the files already collected); replay with rules files of the same base name in different directories.",
   design="0b/C12"),
  "C13": dict(
   text="Bounded model checking of the comparison kernel: for ALL pairs of i64, ALL pairs of f64 (NaN => not comparable, -0.0 == 0.0), "
@@ -285,7 +286,8 @@ CLAIMS = {
        "Added later: `.n` and `[n]` - the two conversion closures run on ONE shared symbolic i64 literal (second executor's symbols renamed apart, casts with exact wrap-around) build the same QueryPart::Index for every literal; 28 spelling pairs in the native replay, incl. literals >= 2^31."
        "Added later: rules_file files every top-level line as ONE conjunction entry of the implicit default rule (its `or` alternatives together)."
        "Added later: comment2's wiring (delimited('#', take_till(c == newline), multispace0)); comment-at-end-of-file spelling pairs."
-       " Added last: layout skippers - the functions that hand a bare whitespace skipper (no comments) to a combinator are the stated table; or_join is comment-aware on both sides; five comment-before-`or` spelling pairs.",
+       " Added last: layout skippers - the functions that hand a bare whitespace skipper (no comments) to a combinator are the stated table; or_join is comment-aware on both sides; five comment-before-`or` spelling pairs."
+       " Added last: keyword case symmetry - a parser function that recognises one spelling of a documented keyword by tag() recognises all of them, and only the keyword's own parser spells it (site enumeration); upper-case WHEN on type blocks in the spelling pairs.",
   design="0b/C14"),
  "C15": dict(
   text="Bounded symbolic execution (MIR, callees modelled, value identities tracked; z3+cvc5) of the resolution machinery: "
